@@ -69,10 +69,7 @@ def veq(e, a, b):
 
 
 def _valid(e, cond):
-    if isinstance(cond, bool):
-        return cond
-    s = z3.Solver(); s.set('timeout', 10000); s.add(*e.pc); s.add(z3.Not(cond))
-    return s.check() == z3.unsat
+    return e.valid(cond, 10000)
 
 
 def compare_sections(e, g, h, tag):
